@@ -12,10 +12,12 @@ ALL = ["C01","C02","C03","C04","C05","C06","C07","C08","C09","C10","C11","C12","
 
 def main():
     arg = sys.argv[1]
-    if os.path.isdir(os.path.join(HERE, arg)):
+    if os.path.isdir(os.path.join(HERE, arg)) and os.path.exists(os.path.join(HERE, arg, "meta.json")):
         patch = os.path.join(HERE, arg, "patch.diff")
         meta = json.load(open(os.path.join(HERE, arg, "meta.json")))
         pids = meta.get("checks") or [meta["property"]]
+        if meta.get("expect") == "silent":
+            pids = ALL
     else:
         patch, pids = arg, []
     if len(sys.argv) > 2:
